@@ -36,6 +36,11 @@ def make_overlay(tmp):
     for f in sorted(os.listdir(os.path.join(HARNESS, "main"))):
         if f.endswith(".go"):
             repl[os.path.join(REPO, "internal/zzverif/harness", f)] = os.path.join(HARNESS, "main", f)
+    zz = os.path.join(HARNESS, "zzsync")
+    if os.path.isdir(zz):
+        for f in sorted(os.listdir(zz)):
+            if f.endswith(".go"):
+                repl[os.path.join(REPO, "internal/zzverif/zzsync", f)] = os.path.join(zz, f)
     inj = os.path.join(HARNESS, "inject")
     if os.path.isdir(inj):
         for d in sorted(os.listdir(inj)):
@@ -49,7 +54,27 @@ def make_overlay(tmp):
     return path
 
 
-def build_harness(tmp, extra_overlay=None, tags=None):
+def jitter_copy(tmp, relpath):
+    """a copy of /repo/<relpath> in which sync.Mutex / sync.RWMutex are replaced by the jitter-adding zzsync types;
+    returns an overlay entry {repo path: copy}, or {} if the file uses other parts of package sync"""
+    src = os.path.join(REPO, relpath)
+    with open(src) as fh:
+        code = fh.read()
+    if not re.search(r'^\s*"sync"\s*$', code, re.M):
+        return {}
+    other = re.findall(r"\bsync\.(\w+)", code)
+    if any(o not in ("Mutex", "RWMutex") for o in other):
+        return {}
+    code = re.sub(r'^(\s*)"sync"\s*$', r'\1zzsync "github.com/dadrus/heimdall/internal/zzverif/zzsync"', code, flags=re.M)
+    code = code.replace("sync.Mutex", "zzsync.Mutex").replace("sync.RWMutex", "zzsync.RWMutex")
+    code = code.replace("zzzzsync", "zzsync")
+    dst = os.path.join(tmp, "jitter_" + relpath.replace("/", "__"))
+    with open(dst, "w") as fh:
+        fh.write(code)
+    return {src: dst}
+
+
+def build_harness(tmp, extra_overlay=None, tags=None, race=False):
     """Build the harness from /repo's current working tree. Returns (path, log)."""
     ov = make_overlay(tmp)
     if extra_overlay:
@@ -60,6 +85,8 @@ def build_harness(tmp, extra_overlay=None, tags=None):
             json.dump(o, fh)
     exe = os.path.join(tmp, "harness")
     cmd = ["go", "build", "-overlay", ov, "-o", exe]
+    if race:
+        cmd.append("-race")
     if tags:
         cmd += ["-tags", tags]
     cmd += ["./internal/zzverif/harness"]
